@@ -1,6 +1,8 @@
 package main
 
 import (
+	"fmt"
+	"os"
 	"go/token"
 	"go/types"
 	"sort"
@@ -419,11 +421,10 @@ func checkPerFileState(p *Prog, r *Report) {
 							continue
 						}
 						nRet++
-						switch unwrapLocal(rs[idx]).(type) {
-						case *ssa.MakeSlice, *ssa.MakeMap:
-						default:
-							if !isNilConst(rs[idx]) {
-								allFresh = false
+						if !freshAllocValue(rs[idx]) && !isNilConst(rs[idx]) {
+							allFresh = false
+							if os.Getenv("RV_DEBUG") != "" {
+								fmt.Fprintf(os.Stderr, "DEBUG fresh: %s result %d = %s (%T) unwrap=%T\n", h.Name(), idx, rs[idx], rs[idx], unwrapLocal(rs[idx]))
 							}
 						}
 					}
@@ -848,4 +849,41 @@ func stripIface(v ssa.Value) ssa.Value {
 		return mi.X
 	}
 	return v
+}
+
+// freshAllocValue: v is a make(...) of this function, possibly held in a local
+// cell (named result, captured variable) all of whose stores are such makes.
+func freshAllocValue(v ssa.Value) bool {
+	switch x := unwrapLocal(v).(type) {
+	case *ssa.MakeSlice, *ssa.MakeMap:
+		return true
+	case *ssa.UnOp:
+		if x.Op != token.MUL {
+			return false
+		}
+		a, ok := x.X.(*ssa.Alloc)
+		if !ok {
+			return false
+		}
+		n := 0
+		for _, ref := range *a.Referrers() {
+			st, ok := ref.(*ssa.Store)
+			if !ok || st.Addr != ssa.Value(a) {
+				continue
+			}
+			if l2, ok := st.Val.(*ssa.UnOp); ok && l2.Op == token.MUL && l2.X == ssa.Value(a) {
+				continue
+			}
+			switch st.Val.(type) {
+			case *ssa.MakeSlice, *ssa.MakeMap:
+				n++
+			default:
+				if !isNilConst(st.Val) {
+					return false
+				}
+			}
+		}
+		return n > 0
+	}
+	return false
 }
